@@ -91,6 +91,12 @@ def parse_components(match_text):
 
     c, _ = env.new_csvpath(["collect"])
     m = c.parse(f"$nofile.csv[*]{match_text}", disposably=True)
+    # every build of a function in this process (also while learning arities) is compared with its first build
+    for fname, sig in build_signatures(m):
+        _BUILD_COUNT["n"] += 1
+        first = _BUILT.setdefault(fname, sig)
+        if first != sig:
+            _BUILD_MISMATCH.append({"match_part": match_text, "function": fname, "first_build": first, "this_build": sig})
     return m, c
 
 
@@ -321,6 +327,29 @@ def install_parse_hook():
     LarkParser._vfy = True
 
 
+_BUILD_MISMATCH = []
+_BUILD_COUNT = {"n": 0}
+_BUILT = {}  # function name -> (class, construction-time configuration) of its first build in this process
+_COMMON_STATE = {"name", "qualified_name", "qualifier", "value", "match", "_id", "checked"}
+
+
+def build_signatures(m):
+    """(function name, class name, primitive construction-time attributes beyond the ones every function has) per
+    Function node of a freshly parsed matcher: what the factory made of the written name"""
+    from csvpath.matching.functions.function import Function
+
+    def walk(n):
+        yield n
+        for ch in getattr(n, "children", None) or []:
+            yield from walk(ch)
+
+    for e in m.expressions:
+        for n in walk(e[0]):
+            if isinstance(n, Function):
+                extra = sorted((k, v) for k, v in vars(n).items() if k not in _COMMON_STATE and not k.startswith("_") and isinstance(v, (str, int, float, bool)))
+                yield n.name, (type(n).__module__ + "." + type(n).__name__, extra)
+
+
 def check_ast(comps, r, agg):
     want = [canon(c) for c in comps]
     comps_text = [txt(c) for c in comps]
@@ -334,6 +363,12 @@ def check_ast(comps, r, agg):
         agg.count("parse_calls")
         if _AMBIG["n"]:
             return "ambiguous-parse", {"match_part": mtxt, "ambig_nodes": _AMBIG["n"]}
+        agg.count("function_builds_compared", _BUILD_COUNT["n"])
+        _BUILD_COUNT["n"] = 0
+        if _BUILD_MISMATCH:
+            w_ = _BUILD_MISMATCH[0]
+            del _BUILD_MISMATCH[:]
+            return "function-built-differently-on-a-later-parse", w_
         got = [extract(e[0]) for e in m.expressions]
         agg.count("trees_compared")
         if got != want:
